@@ -224,7 +224,12 @@ def c_not(c):
 # Semantic probes: value relations checked at one site of one body, with trace partitioning switched on for that body.
 PROBES = {
     "ber::objectid::<impl std::convert::TryFrom<&ber::objectid::SnmpOid<'_>> for std::string::String>::try_from": {
-        "name": "oid-first-octet", "collect": "Argument::<'_>::new_display", "assume_first_le": 119,
+        "kind": "oid", "name": "oid-first-octet", "collect": "Argument::<'_>::new_display", "assume_first_le": 119,
+    },
+    # DES-CBC pads the serialised scoped PDU up to the next multiple of the block size: 0..7 octets, never a whole block.
+    # self.buf holds 8 octets of padding pushed first plus the scoped PDU: its length is self.buf.len() - 8.
+    "<privacy::des::DesKey as privacy::SnmpPriv>::encrypt": {
+        "kind": "pad", "name": "des-padding", "collect": "::encrypt_padded_mut", "len_expr": "a1.buf.pos", "capacity": 4080, "prefix": 8, "block": 8,
     },
 }
 
@@ -847,6 +852,12 @@ class Engine:
                     fl = Lin.sym(f)
                     if st.entails(-x):
                         st.add(fl - x)
+                        # x & !(2^k - 1): rounding down to a multiple of 2^k loses less than 2^k
+                        bits = r[1].bit_length() if r[1] not in (INF, -INF) and r[0] == 0 else None
+                        if bits:
+                            low = (2 ** bits - 1) - y.c
+                            if low > 0 and (low & (low + 1)) == 0:
+                                st.add(x - fl - low)
                     return fl
             if st.entails(-la) and st.entails(-lb):
                 f = self.new_sym("and", 0, INF)
@@ -1694,7 +1705,7 @@ class Interp:
         if m is not None:
             res = m(ctx)
             if res is not None:
-                if self.probe is not None and fr.depth == 0 and bidx == self.probe_next_block:
+                if self.probe is not None and self.probe.get("kind") == "oid" and fr.depth == 0 and bidx == self.probe_next_block:
                     self.probe_bind_first(ctx, res)
                 return res
         # 2. local callee
@@ -1749,6 +1760,8 @@ class Interp:
         """Record the values formatted by the first write!() of the probed body and check the probe's relation."""
         if not (path or "").endswith(self.probe["collect"]) or bidx in self.probe_loop_blocks or not args:
             return
+        if self.probe.get("kind") == "pad":
+            return self.probe_pad(fr, bidx, st, t, args)
         v = args[0]
         val = None
         if v[0] == "ptr":
@@ -1781,6 +1794,26 @@ class Interp:
                     "for a first octet below 120 the printed arcs must satisfy 40*x + y == octet")
         self.oblige(st2, fr, key + "|arc2 <= 39", "probe", t["line"], ("le", y[1] - 39), "probe",
                     "for a first octet below 120 the second printed arc is at most 39")
+
+    def probe_pad(self, fr, bidx, st, t, args):
+        """padded length handed to the block cipher: plaintext length <= padded <= plaintext length + block - 1."""
+        import ast as _ast
+        from .contracts import Evaluator, Contract
+        pr = self.probe
+        key = "probe:%s" % pr["name"]
+        padded = self.as_lin(st, args[-1]) if args else None
+        ev = Evaluator(self, st, fr, Contract._callee_cursors(self, fr, st), None, None, fr.subst)
+        try:
+            pos = ev.lin(_ast.parse(pr["len_expr"], mode="eval").body)
+        except Exception:
+            pos = None
+        if padded is None or pos is None:
+            self.oblige(st, fr, key + "|values-tracked", "probe", t["line"], ("const", False), "probe", "padded length or buffer position not tracked")
+            return
+        plain = Lin.const(pr["capacity"] - pr["prefix"]) - pos
+        self.oblige(st, fr, key + "|padded >= plaintext", "probe", t["line"], ("le", plain - padded), "probe", "the cipher must cover the whole scoped PDU")
+        self.oblige(st, fr, key + "|padding < one block", "probe", t["line"], ("le", padded - plain - (pr["block"] - 1)), "probe",
+                    "at most block-1 octets of padding (RFC 3414 8.1.1.2: padded to a multiple of 8 octets)")
 
     def inlinable(self, callee, fr):
         if fr.depth >= MAX_INLINE_DEPTH:
